@@ -1,0 +1,36 @@
+//go:build verif
+
+package miner
+
+import (
+	"context"
+
+	"0chain.net/chaincore/block"
+	"0chain.net/chaincore/chain"
+	"0chain.net/core/common"
+)
+
+// Thin wrappers for the verification harness (/verif, properties C44 and C45). No logic.
+
+// VerifNewChain returns a miner chain over c that is independent of the package-level
+// minerChain, with the two bounded workers generateBlock / ValidateTransactions run under.
+func VerifNewChain(c *chain.Chain) *Chain {
+	return &Chain{
+		Chain:                   c,
+		validateTxnsWithContext: common.NewWithContextFunc(1),
+		generateBlockWorker:     common.NewWithContextFunc(1),
+	}
+}
+
+// VerifGenerateBlock calls the unexported generateBlock.
+func (mc *Chain) VerifGenerateBlock(ctx context.Context, b *block.Block,
+	bsh chain.BlockStateHandler, waitOver bool, waitC chan struct{}) error {
+	return mc.generateBlock(ctx, b, bsh, waitOver, waitC)
+}
+
+// VerifIsBuildInTxnName reports whether a smart-contract function name is one of the
+// generator's built-in transactions.
+func VerifIsBuildInTxnName(name string) bool {
+	_, ok := gBuildInTxnsMap[name]
+	return ok
+}
